@@ -61,7 +61,7 @@ def body(c):
     mirror = json.load(open(SCHEMA))
     rng = random.Random(c.seed)
     # ---- mode M (laws) + policy tuples
-    m = vlib.run_tlc("gql/CachePolicy.tla", "gql/MC_CachePolicy.cfg", workers=4, timeout=900, keep_lines=20)
+    m = vlib.run_tlc("gql/MC_CachePolicy.tla", "gql/MC_CachePolicy.cfg", workers=4, timeout=900, keep_lines=20)
     if m.invariant_violated:
         raise vlib.ToolError("design-level failure in CachePolicy.tla: " + str(m.invariant_violated))
     c.add_tlc("M CachePolicy laws over all pairs/triples + G policy tuples", m)
@@ -73,27 +73,33 @@ def body(c):
     # ---- documents over the family (same structure for P1..P3) and over the law profile
     ts_path = c.path("ts_family.json")
     json.dump(mirror["profiles"]["P1"], open(ts_path, "w"))
-    n = 4 if c.quick else 5
+    n = 4
+    small = gen_docs(c, ts_path, 3, ["skip:true"], "family3")
     flats = gen_docs(c, ts_path, n, ["skip:true"], "family")
     total_docs = len(flats)
-    small = gen_docs(c, ts_path, 3, ["skip:true"], "family3")
-    cap = 2500 if c.quick else 40000
-    exhaustive = True
-    if len(flats) > cap:
-        flats = sorted(set(rng.sample(flats, cap)) | set(small))
-        exhaustive = False
+    cap = 1500 if c.quick else 10 ** 9       # thorough: every document with <= 4 nodes
+    exhaustive = len(flats) <= cap
+    big = [f for f in flats if f not in set(small)]
+    if len(big) > cap:
+        big = sorted(rng.sample(big, cap))
+    small_set = set(small)
     ws = worlds()
     profiles = ["P1", "P2", "P3"]
-    for fs in flats:
+    for fs in small + big:
         doc = gqlgen.tree_from_flat(json.loads(fs), "query")
         combos = [(p, w) for p in profiles for w in ws]
         if c.quick:
-            combos = rng.sample(combos, 3)
+            combos = rng.sample(combos, 3 if fs in small_set else 1)
+        elif fs not in small_set:
+            combos = rng.sample(combos, 2)
         for p, (wname, w) in combos:
             cases.append({"id": 0, "kind": "exec", "profile": p, "doc": doc, "opIndex": 1, "vars": [], "world": w, "wname": wname})
     lts_path = c.path("ts_laws.json")
     json.dump(mirror["profiles"]["L"], open(lts_path, "w"))
     lflats = gen_docs(c, lts_path, 3, [], "laws")
+    if c.quick:      # all 1- and 2-field queries, a seeded sample of the 3-field ones
+        two = [f for f in lflats if len(json.loads(f)) <= 2]
+        lflats = two + sorted(rng.sample([f for f in lflats if len(json.loads(f)) == 3], 300))
     lworld = {"root": {"type": "Query", "vals": {f: {"k": "int", "v": "1"} for f in mirror["profiles"]["L"]["types"]["Query"]["fields"]}}}
     for fs in lflats:
         cases.append({"id": 0, "kind": "exec", "profile": "L", "doc": gqlgen.tree_from_flat(json.loads(fs), "query"), "opIndex": 1, "vars": [], "world": lworld, "wname": "laws"})
@@ -144,8 +150,9 @@ def body(c):
                      "interface and union fields, inline and named fragments on every overlapping condition, literal @skip), crossed with 3 hint "
                      "profiles (one hand-made, two seeded) and 5 data worlds (every runtime type behind node/u/nodes/us/peer, lists of mixed types, "
                      "all-null)%s; distinct by (document text, profile, world) / policy tuple; non-trivial: every exec case, batch tuples of >= 2 policies"
-                     % (stats["batch"], len(lflats), n, total_docs, "" if exhaustive else ", seeded sample of %d plus all with <= 3 nodes" % cap,
-                        " (quick: 3 seeded (profile, world) pairs per document)" if c.quick else ""))
+                     % (stats["batch"], len(lflats), n, total_docs, "" if exhaustive else ", all with <= 3 nodes plus a seeded sample of %d of the rest" % cap,
+                        " (quick: 3 / 1 seeded (profile, world) pairs per small / large document; 3-field law queries sampled)" if c.quick
+                        else " (documents with > 3 nodes: 2 seeded (profile, world) pairs each)"))
     for o in [x for x in obs if x["kind"] == "exec" and verdicts[x["id"]][0] != "ok"][:2] + [x for x in obs if x["kind"] == "exec"][:1]:
         c.sample({"profile": o["profile"], "world": o["wname"], "text": o["text"], "policy": o["obs"]["policy"], "verdict": verdicts[o["id"]][0]})
     c.assumptions += ["the harness document printer is trusted", "schemas/c20.json mirrors every profile incl. all hints (generated from one table with the macro invocations; compared with the live registry at start-up)",
